@@ -4,6 +4,7 @@ import (
 	"context"
 	"errors"
 	"fmt"
+	"hash/fnv"
 	"log/slog"
 	"math"
 	"os"
@@ -112,17 +113,19 @@ type tcase struct {
 	viaLogger int  // 0: hand-built record through Handler.Handle; 1: Logger.LogAttrs; 2: Logger.Log(msg, args...)
 	site      int  // index into sites: where the pc comes from (file names that need quoting)
 	zeroPC    bool // hand-built record with PC == 0
+	sample    bool // offer the case as a sample for the evidence file
 }
 
 type runner struct {
-	e       *hk.Env
-	seenQ   map[string]bool
-	nQ      int
-	maxQ    int
-	ncases  int
-	quoted  int
-	kinds   map[string]int
-	srcSeen map[string]int
+	e        *hk.Env
+	seenQ    map[string]bool
+	nQ       int
+	maxQ     int
+	ncases   int
+	quoted   int
+	kinds    map[string]int
+	srcSeen  map[string]int
+	distinct map[uint64]struct{}
 }
 
 // expected source text, computed from the pc with the runtime's own tables
@@ -245,6 +248,15 @@ func (r *runner) run(c tcase) {
 	}
 	r.e.Case(fields...)
 	r.ncases++
+	hh := fnv.New64a()
+	for _, f := range fields[1:7] { // the input part of the case
+		hh.Write([]byte(f))
+		hh.Write([]byte{' '})
+	}
+	r.distinct[hh.Sum64()] = struct{}{}
+	if c.sample && len(cap.writes) == 1 {
+		r.e.Sample("samples", map[string]string{"msg": c.msg, "chain": encChain(c.chain), "attrs": sb.String(), "line": string(cap.writes[0])}, 6)
+	}
 }
 
 // scanQuoted walks a written line the way a reader would and records every quoted item
@@ -601,7 +613,7 @@ func run(e *hk.Env) error {
 	if err := dumpTables(e); err != nil {
 		return err
 	}
-	r := &runner{e: e, seenQ: map[string]bool{}, maxQ: 60000, kinds: map[string]int{}, srcSeen: map[string]int{}}
+	r := &runner{e: e, seenQ: map[string]bool{}, maxQ: 60000, kinds: map[string]int{}, srcSeen: map[string]int{}, distinct: map[uint64]struct{}{}}
 	if e.Thorough() {
 		r.maxQ = 400000
 	}
@@ -716,6 +728,7 @@ func run(e *hk.Env) error {
 		if c.viaLogger == 2 {
 			c.site = 0
 		}
+		c.sample = i%997 == 5 && len(ns) > 0
 		via[c.viaLogger]++
 		r.run(c)
 	}
@@ -743,6 +756,7 @@ func run(e *hk.Env) error {
 		r.addQ(sb.String())
 	}
 	e.Stats["cases"] = r.ncases
+	e.Stats["distinct_nontrivial"] = len(r.distinct)
 	e.Stats["quoted_items_seen"] = r.quoted
 	e.Stats["unquote_crosschecks"] = r.nQ
 	e.Stats["value_kinds"] = r.kinds
